@@ -176,7 +176,7 @@ fn main() {
             let t = cfg.tier.thorough();
             assumptions.push("sequence positions outside SEQ_STARTS, the consecutive run from 0 and the embedding windows are not covered; the context has no state besides (seq, overflowed) and its immutable keys (explored separately by the unmerged history trees and C18)".into());
             go(&session::NonceFormula { suites: session::seq_suites(t), run_len: if t { 1 << 22 } else { 1 << 12 } }, &cfg, &mut reports, &mut replayed);
-            go(&session::E2a { focus: session::Focus::Sender, suites: session::seq_suites(false), ws: if t { vec![3, 4] } else { vec![3] } }, &cfg, &mut reports, &mut replayed);
+            go(&session::E2a { focus: session::Focus::Sender, suites: session::seq_suites(false), ws: if t { vec![3, 4, 5] } else { vec![3] } }, &cfg, &mut reports, &mut replayed);
             let mut starts: Vec<u64> = (0..4).map(|d| u64::MAX - d).collect();
             starts.extend_from_slice(&[0, 254, (1 << 32) - 2, (1 << 56) - 1, u64::MAX - 5]);
             go(&session::E2b { suites: session::seq_suites(false), starts, depth: if t { 7 } else { 5 }, letters: vec![0, 1, 10], label: "sender".into() }, &cfg, &mut reports, &mut replayed);
@@ -184,7 +184,7 @@ fn main() {
         "C05" => {
             let t = cfg.tier.thorough();
             assumptions.push("the adversary's corruption alphabet is the 11 classes of session.rs (one representative position each; C06 enumerates every bit); positions outside the start sets and embedding windows are not covered".into());
-            go(&session::E2a { focus: session::Focus::Receiver, suites: session::seq_suites(false), ws: if t { vec![3, 4] } else { vec![3] } }, &cfg, &mut reports, &mut replayed);
+            go(&session::E2a { focus: session::Focus::Receiver, suites: session::seq_suites(false), ws: if t { vec![3, 4, 5] } else { vec![3] } }, &cfg, &mut reports, &mut replayed);
             let starts: Vec<u64> = if t { session::seq_starts().into_iter().filter(|p| *p % 2 == 1 || *p > u64::MAX - 4 || *p < 3).collect() } else { vec![0, 255, (1 << 32) - 1, (1 << 56) - 1, u64::MAX - 3, u64::MAX - 2, u64::MAX - 1, u64::MAX] };
             go(&session::E2b { suites: session::seq_suites(false), starts, depth: if t { 4 } else { 3 }, letters: (0..12).collect(), label: "full".into() }, &cfg, &mut reports, &mut replayed);
             if t {
